@@ -126,6 +126,7 @@ func body(sp spec) {
 		}()
 	}
 	closeCalled := false
+	closeReturned := false
 	var ch3 <-chan *message.Message
 	sub3OK := false
 	for _, a := range strings.Split(sp.Actors, "+") {
@@ -136,6 +137,8 @@ func body(sp spec) {
 				if err := sub.Close(); err != nil {
 					vs.Fail("close-error", "Close returned %v", err)
 				}
+				vs.Observe("close-returned")
+				closeReturned = true // same transition as the observation
 			})
 		case "cancel":
 			run(func() { cancel1() })
@@ -143,6 +146,12 @@ func body(sp spec) {
 			run(func() {
 				c, err := sub.Subscribe(context.Background(), "t")
 				if err == nil {
+					// both events are observations (totally ordered); right after ours: if a Close call has
+					// already returned, this subscription's channel must be closed by now
+					vs.Observe("subscribe-returned")
+					if closeReturned && !vs.PeekClosed(c) {
+						vs.Fail("closed-rejects", "Close has returned, yet a Subscribe call returned successfully with an open output channel")
+					}
 					ch3, sub3OK = c, true
 					go func() {
 						for m := range c {
